@@ -43,15 +43,15 @@ fn cfgs() -> Vec<PairCfg> {
 }
 
 #[derive(Clone, Debug)]
-struct Case {
-    cfg: String,
-    wl: Wl,
-    m0: usize,
-    at: u64,
-    m1: usize,
+pub struct Case {
+    pub cfg: String,
+    pub wl: Wl,
+    pub m0: usize,
+    pub at: u64,
+    pub m1: usize,
     /// instead of a link change at step `at`: the client's source address changes there (NAT
     /// rebinding), so path validation runs while application datagrams are queued
-    rebind: bool,
+    pub rebind: bool,
 }
 
 struct Limits {
@@ -185,7 +185,7 @@ pub fn size_violations(p: &StdPair, cfg: &PairCfg) -> (Vec<(String, String)>, u6
     (out, probes_seen)
 }
 
-fn run_case(base: Instant, c: &Case, dump: bool) -> (u64, Vec<(String, String)>, u64) {
+pub fn run_case(base: Instant, c: &Case, dump: bool) -> (u64, Vec<(String, String)>, u64) {
     let cfg = cfgs().into_iter().find(|x| x.client.name == c.cfg).unwrap();
     let r = guarded(|| {
         let mut p = std_pair_pre(base, &cfg, c.wl, ReadMode::default(), |w| {
